@@ -10,7 +10,8 @@ EVIDENCE = dict(
          "ones, synths wrapped around modules that are attached to a project, and objects that were loaded and then edited) the real bytes are TLV-split by the harness and TLC checks chunk by chunk bytes = Write(public state) - "
          "every differing chunk is reported with its id, CHNM and module - and evaluates each structural rule separately "
          "(header first, PEND/SEND termination, SNAM 32 bytes, PDTA = lines*tracks*8, CVAL count, CMID 8 per value, CHNM "
-         "< CHNK, record sizes). MC_RVFormat checks Struct(Write(s)) on the bounded model. non-trivial = at least 2 modules.",
+         "< CHNK, record sizes). MC_RVFormat checks Struct(Write(s)) on the bounded model. non-trivial = at least 2 modules."
+         " Deterministic boundary objects are written too; value lists of the wrong length in fixed-size array blocks must be refused or written at the documented size (structural rule array-block-not-documented-size from RVFormat!ArrayBytes).",
     explanation="every serialized object of the run is checked, not a sample of golden files")
 
 
